@@ -397,6 +397,9 @@ func chainOracle(w *worldRun) (string, string) {
 			return fmt.Sprintf("entry at position %d of the persisted log carries id %s (ids must be 0,1,2,... in insertion order) [%s]", i, l.ID, w.digest()), "chain-id"
 		}
 		re := l.Log.ChainLog(prev)
+		if !bytes.Equal(memstore.SpecHash(prev, l), l.Hash) {
+			return fmt.Sprintf("entry %d: hash is not SHA-256 over the previous entry's hash and the whole entry (type, data, date, idempotency key) [%s]", i, w.digest()), "chain-hash-spec"
+		}
 		if !bytes.Equal(re.Hash, l.Hash) {
 			return fmt.Sprintf("entry %d: hash is not the digest of the previous entry's hash and its content [%s]", i, w.digest()), "chain-hash"
 		}
